@@ -171,6 +171,17 @@ impl<CS: CLCiphersuite> PoKSignature<CL03<CS>> {
             return false;
         }
 
+        // one response, one proof of knowledge and one range proof per hidden attribute, no more:
+        // surplus entries would be ignored by the loops below
+        let n_hidden = unrevealed_message_indexes.len();
+        if CLSPoK.spok.s_5.len() != n_hidden
+            || CLSPoK.proofs_commited_mi.len() != n_hidden
+            || CLSPoK.range_proofs_commited_mi.len() != n_hidden
+        {
+            println!("Number of sub-proofs different from the number of hidden attributes!");
+            return false;
+        }
+
         let boolean_spok = NISPSignaturePoK::nisp5_MultiAttr_verify_proof::<CS>(
             &CLSPoK.spok,
             commitment_pk,
